@@ -20,6 +20,8 @@ func TestMain(m *testing.M) { ev.Main(m, "C04") }
 type Case struct {
 	P *model.Project `json:"project"`
 	L *model.Layout  `json:"layout"`
+	// Prelude: sut.Disturb sequence run before the case (0 = none)
+	Prelude int `json:"prelude,omitempty"`
 }
 
 func ruleClass(path string) string {
@@ -36,6 +38,11 @@ func ruleClass(path string) string {
 }
 
 func oracle(c Case) *ev.Verdict {
+	if c.Prelude != 0 {
+		// the answer for a project does not depend on what the process handled before it
+		sut.Pristine()
+		sut.Disturb(c.Prelude)
+	}
 	if c.P == nil || c.P.Root == nil {
 		return nil
 	}
@@ -159,8 +166,20 @@ func judged(c Case) *ev.Verdict {
 }
 
 func registerAll() {
+	ev.Register("models-after-prelude", judged)
 	ev.Register("models", judged)
 	ev.Register("table", oracle)
+}
+
+// the generated cases after a disturbing prelude on other objects (sut.Disturb), every case from emptied pools
+func TestPropModelsAfterPreludeAfterPrelude(t *testing.T) {
+	registerAll()
+	ev.Rapid(t, "models-after-prelude", ev.N(250, 2500), func(t *rapid.T) Case {
+		c := genCase(t)
+		c.Prelude = rapid.IntRange(1, sut.DisturbMax).Draw(t, "prelude")
+		return c
+	}, judged)
+	sut.Pristine()
 }
 
 func TestPropModels(t *testing.T) {
